@@ -109,7 +109,9 @@ func (g *sgen) join(parts ...string) string {
 var namePool = []string{"cpu", "mem", "host", "region", "value", "usage_idle", "db0", "rp1", "m", "_x", "autogen", "mydb", "Load", "x1", "time"}
 var oddNames = []string{"a b", "select", "1x", "é", "a.b", "a\"b", "a\\b", "from", "a\nb", "日本", "x-y", "WHERE", "my db", "$x", "a'b", "tz", "fill",
 	// words the keyword table knows although they are not in the keyword token block
-	"and", "or", "true", "false", "AND", "Or", "True", "FALSE", "inf", "all", "distinct", "time", "now", "\ufffd", "it\u2019s"}
+	"and", "or", "true", "false", "AND", "Or", "True", "FALSE", "inf", "all", "distinct", "time", "now", "\ufffd", "it\u2019s",
+	// names whose only non-ASCII runes lower-case to ASCII letters (their ASCII twins are bare identifiers)
+	"temp_\u212a", "\u212a", "cpu_\u0130dle", "\u0130d", "\u212aelvin", "x\u017f"}
 
 func quoteName(s string) string {
 	return `"` + strings.NewReplacer("\n", `\n`, `\`, `\\`, `"`, `\"`).Replace(s) + `"`
